@@ -196,6 +196,11 @@ def apply(ctx, W):
     fn, u = fn_into_verus(ctx, fw, "build", ret="res", tags=U, unit="semantic::type_definition::build",
         requires=["reg_wf(&old(semantic).type_registry)"],
         ensures=[
+            ("reg_wf(&final(semantic).type_registry)", ("C10",), "build-keeps-reg-wf"),
+            ("keys_kept(&old(semantic).type_registry, &final(semantic).type_registry)", ("C10", "C14"), "build-keys-kept"),
+            ("final(semantic).modules@.dom() == old(semantic).modules@.dom()", ("C10",), "build-keeps-modules"),
+            ("final(semantic).type_registry.pointer_size == old(semantic).type_registry.pointer_size", ("C10",), "build-keeps-pointer-size"),
+            ("registry_frame(&old(semantic).type_registry, &final(semantic).type_registry, *resolvee_path)", ("C10", "C19"), "build-attempt-frame"),
             ("""res is Ok && res->Ok_0 is Some ==> ({
                 let isr = res->Ok_0->0; let reg = &final(semantic).type_registry;
                 &&& isr.inner is Type
